@@ -8,6 +8,7 @@ import RactorModel.Lemmas.HandshakeDial
 import RactorModel.Lemmas.HandshakeFail
 import RactorModel.Lemmas.HandshakeRefineB
 import RactorModel.Lemmas.Reconnect
+import RactorModel.Lemmas.HandshakePre
 
 /-!
 # C18 — duplicate connections converge on one and the same link
@@ -418,6 +419,25 @@ theorem check_candidate_is_the_pre_step_on_B (nameA nameB : String) (w : List Li
       (electB (nameOrd nameB nameA) (candB w b)).contains b = false :=
   checkCandidate_is_stepPreB nameB nameA w b hnd h
 
+/-- (the pre-authentication check as the session performs it) The session calls `CheckSession` with the
+peer's name and its own nonce, not `check_candidate`. On either node's state in the handshake world
+that call answers `check_candidate` of the one session carrying that nonce — the `preA` / `preB` step,
+by `check_candidate_is_the_pre_step{,_on_B}` — and `NoOtherConnection` (carry on) when several open
+sessions share the nonce (legacy 0, repeated nonces). So the step the code takes (`stepPreSA` /
+`stepPreSB`, compared with the real `check_session` by the `hpsA` / `hpsB` ops) is a `pre` step or
+nothing, and every theorem about `hsStep` runs covers it. -/
+theorem check_session_is_the_pre_step_or_nothing (nameA nameB : String) (o : Ordering) (w : List Link) (n x : Nat) :
+    ((∀ a, matchA w n = [a] →
+        (nsOfA nameA nameB w).checkSession nameB n = (nsOfA nameA nameB w).checkCandidate a) ∧
+     (2 ≤ (matchA w n).length → (nsOfA nameA nameB w).checkSession nameB n = .noOther)) ∧
+    ((∀ b, matchB w n = [b] →
+        (nsOfB nameB nameA w).checkSession nameA n = (nsOfB nameB nameA w).checkCandidate b) ∧
+     (2 ≤ (matchB w n).length → (nsOfB nameB nameA w).checkSession nameA n = .noOther)) ∧
+    (stepPreSA o w x = stepPreA o w x ∨ stepPreSA o w x = w) ∧
+    (stepPreSB o w x = stepPreB o w x ∨ stepPreSB o w x = w) :=
+  ⟨checkSession_nsOfA nameA nameB w n, checkSession_nsOfB nameA nameB w n,
+   stepPreSA_cases o w x, stepPreSB_cases o w x⟩
+
 /-- Non-vacuity: three connections (both nodes dialled, one legacy nonce); node B authenticates
 everything first, node A last, closes are noticed late — the run comes to rest with one link,
 and a different schedule comes to rest with the same link. -/
@@ -655,6 +675,7 @@ end C18
 #print axioms C18.name_order_is_antisymmetric
 #print axioms C18.commit_is_the_auth_step_on_B
 #print axioms C18.check_candidate_is_the_pre_step_on_B
+#print axioms C18.check_session_is_the_pre_step_or_nothing
 #print axioms C18.unauthenticated_cannot_influence_commit
 #print axioms C18.unauthenticated_cannot_influence_check
 #print axioms C18.unauthenticated_cannot_influence_ready
